@@ -305,9 +305,27 @@ def r5(ctx, p, ga):
     h, lbody = loop
     S, K = ("sym", "s"), ("sym", "k")
 
+    _alias = {}
+
+    def is_self_local(l, depth=0):
+        # `self`, or a temporary that just re-borrows / copies it (an inlined &self helper)
+        if l == 1:
+            return True
+        if l in _alias:
+            return _alias[l]
+        _alias[l] = False
+        ds = [d for d in ga.defs().get(l, []) if not ga.is_cleanup(d[0])]
+        if depth < 4 and len(ds) == 1 and ds[0][1] != "term":
+            rv = ds[0][2]["rv"]
+            if rv["k"] == "ref" and [e["k"] for e in rv["place"]["proj"]] in (["deref"], []) and is_self_local(rv["place"]["local"], depth + 1):
+                _alias[l] = True
+            if rv["k"] == "use" and rv["op"].get("k") in ("move", "copy") and not rv["op"]["place"]["proj"] and is_self_local(rv["op"]["place"]["local"], depth + 1):
+                _alias[l] = True
+        return _alias[l]
+
     def hook(pl, bb):
         # reads of self.next: entry value outside the loop, current cursor inside
-        if pl["local"] == 1:
+        if is_self_local(pl["local"]):
             names = [e.get("name") for e in pl["proj"] if e["k"] == "field"]
             if names == ["next"]:
                 return K if bb in lbody else S
@@ -346,7 +364,9 @@ def r5(ctx, p, ga):
     if not (alloc[0] == "call" and alloc[1].endswith("from_elem") and len(alloc[2]) == 2):
         ctx.fail("C02-R5", ga.path, "buffer", "buffer is not vec![x; n]: %s" % show(alloc), cm.loc_of(aterm["span"]))
         return
-    B = to_poly(alloc[2][1], atomize)
+    # a.saturating_sub(b) is a - b wherever the plain subtraction does not underflow
+    from ..loops import rewrite as _rw
+    B = to_poly(_rw(alloc[2][1], lambda n: ("bin", "Sub", n[2][0], n[2][1]) if n[0] == "call" and n[1].endswith("saturating_sub") and len(n[2]) == 2 else None), atomize)
     for cbb, t, cname, kk, ref in mut_arg_calls(ga, ExprBuilder(ga)):
         r, ch = root_of(ref)
         if r[0] == "var" and r[1] == buf_local or (r[0] == "call" and r[1].endswith("from_elem")):
@@ -453,6 +473,37 @@ def offset_poly(ga, eb, off, lbody, atomize, f):
         ue = to_poly(eb.rvalue(upd[0][2]["rv"]), atomize)
         from ..expr import Poly as P
         step = ue - P.atom(v)
+        if step != f and len(step.t) == 1 and list(step.t.values()) == [1]:
+            # `filled += written` with `written` the value generate_step just returned: under
+            # `written != 0` that value is fperiod (C02-R2: generate_step returns 0 or fperiod)
+            (mono, _c), = step.t.items()
+            at = mono[0][0] if len(mono) == 1 and mono[0][1] == 1 else None
+            if isinstance(at, tuple) and at and at[0] == "call" and str(at[1]).endswith("SpeechGenerator::generate_step"):
+                from .. import paths as _paths
+                from ..expr import canon as _canon
+                for g in _paths.guards(ga, upd[0][0], eb):
+                    if g[0] in ("true", "false"):
+                        pos, c = _paths.bool_atoms(g)
+                        if c[0] == "bin" and c[2][0] == "call" and str(c[2][1]).endswith("SpeechGenerator::generate_step") and c[3][0] == "c" and c[3][1] == 0 and ((c[1] == "Eq" and not pos) or (c[1] == "Ne" and pos) or (c[1] == "Gt" and pos)):
+                            step = f
+            elif isinstance(at, tuple) and at and at[0] == "var":
+                wl = None
+                for l, d in enumerate(ga.locals):
+                    if d.get("name") == at[1] or l == at[1]:
+                        wl = l
+                wdefs = [d for d in ga.defs().get(wl, []) if not ga.is_cleanup(d[0])] if wl is not None else []
+                from .. import paths as _paths
+                if len(wdefs) == 1 and wdefs[0][1] == "term" and cm.callee_name(wdefs[0][2]["callee"]).endswith("SpeechGenerator::generate_step") and wdefs[0][0] in lbody:
+                    gsu = _paths.guards(ga, upd[0][0], eb)
+                    nz = False
+                    for g in gsu:
+                        if g[0] in ("true", "false"):
+                            pos, c = _paths.bool_atoms(g)
+                            if c[0] == "bin" and c[2] == ("var", at[1], at[2] if len(at) > 2 else None) or (c[0] == "bin" and show(c[2]) == show(at)):
+                                if c[3][0] == "c" and c[3][1] == 0 and ((c[1] == "Eq" and not pos) or (c[1] == "Ne" and pos) or (c[1] == "Gt" and pos)):
+                                    nz = True
+                    if nz:
+                        step = f
         if step == f and ie.is_const():
             k, s = P.atom(K), P.atom(S)
             return (k - s) * f + ie
